@@ -103,6 +103,14 @@ pub fn check(c: &Case) -> Result<(), String> {
                     par.update_rayon(data);
                 });
             }
+            How::MmapRayon { threads } if data.len() % 4 == 3 && data.len() <= (4 << 20) => {
+                // one time in four the path is a named pipe fed in three pieces (fallback to reads inside the pool)
+                let third = (data.len() / 3) as u32;
+                let p = pool(core::cmp::max(1, *threads));
+                let par_ref = &mut par;
+                let r = crate::props::c11::through_fifo(data, &[third, third], 150, |path| p.install(|| par_ref.update_mmap_rayon(path).map(|_| ())))?;
+                r.map_err(|e| format!("update_mmap_rayon on a named pipe failed: {}", e))?;
+            }
             How::MmapRayon { threads } => {
                 let f = crate::hist::ScratchFile::with_bytes("c08", data).map_err(|e| format!("ENGINE scratch file: {}", e))?;
                 let p = pool(core::cmp::max(1, *threads));
